@@ -127,6 +127,9 @@ var awkwardCatalogue = []awkward{
 	{"plain-string", func() any { return "plain" }},
 	{"plain-int", func() any { return 3 }},
 	// values that are meaningful to setters taking `any` (loggers, log levels, delimiters, symbols, encapsulation)
+	{"marshal-condition-row", func() any { return []any{"CONDITION", "k", stackage.Eq, "v"} }},
+	{"marshal-stack-envelope", func() any { return []any{"AND", "x", 1} }},
+	{"marshal-nested-envelope", func() any { return []any{"or", []any{"LIST", "a"}, []any{"condition", "kw", stackage.Ne, []any{"NOT", "z"}}} }},
 	{"logger-name-stderr", func() any { return "stderr" }},
 	{"logger-int-2", func() any { return 2 }},
 	{"logger-ptr", func() any { return log.New(io.Discard, "x", 0) }},
